@@ -308,6 +308,14 @@ class P2PConnection:
                 return
             self._ack_waiter.set_result(telegram.tpci)
             return
+        if not isinstance(telegram.tpci, TDataConnected):
+            # T_Connect, connectionless or broadcast telegrams carry no sequence number
+            logger.debug(
+                "Ignoring non connection-oriented telegram from %s: %s",
+                self.address,
+                telegram,
+            )
+            return
         if self._response_waiter.done():
             logger.warning(
                 "Received unexpected point-to-point telegram for %s: %s",
